@@ -73,6 +73,8 @@ def run_printer_rules(ctx, res):
         # Unit
         if "Unit" in variants:
             b = variants["Unit"]["body"]
+            if b["k"] == "Call" and path_str(b["func"]) in ("String::from", "std::string::String::from") and len(b["args"]) == 1:
+                b = b["args"][0]  # String::from("()") is "()".to_string()
             root, chain = method_chain(b)
             lit = root["lit"]["v"] if root["k"] == "Lit" and root["lit"]["t"] == "str" else None
             ok = lit is not None and lex_plain(lit) == ["(", ")"] and all(c[1] in ("to_string", "to_owned", "into") for c in chain)
